@@ -200,10 +200,19 @@ def rule_rangedecoder(facts):
                 continue
             for s_ in x.stmts:
                 if s_.k == "assign" and s_.place.local == 0 and not s_.place.proj and s_.rv.k == "aggregate" and s_.rv.agg == "adt" and s_.rv.variant == 0:
-                    rets.append((x.idx, pt.at(x.idx, None).of_operand(s_.rv.ops[0])))
+                    rets.append((x.idx, pt.at(x.idx, None).of_operand(s_.rv.ops[0]), s_.rv.ops[0]))
         n += 1
         okr = bool(rets)
-        for (x, rt) in rets:
+        for (x, rt, rop) in rets:
+            if rt[0] == "phi" and rop.place is not None and not rop.place.proj:
+                # a local set to false / true in the two branches: its value under each valuation (gated evaluation)
+                try:
+                    pts = GRID[:40]
+                    if [bool(pat.eval_gated(db, pt, rop.place.local, x, _leaf(R, C, P))) for (R, C, P) in pts] != [C >= bound(R, P) for (R, C, P) in pts]:
+                        okr = False
+                except (pat.NotEvaluable, pat.Overflow):
+                    okr = False
+                continue
             if rt[0] == "const":
                 side = 0 if (c.dominates(zero_e, x) or zero_e == x) else 1 if (c.dominates(one_e, x) or one_e == x) else None
                 if side is None or rt[1] != side:
@@ -221,7 +230,7 @@ def rule_rangedecoder(facts):
             r.bad("decode_bit|return", "decode_bit does not return the decoded bit: %s" % [flow.show(x[1])[:40] for x in rets], pat.where(db))
         norm = [x.idx for x in db.calls() if (flow.callee(x.term) or "").endswith("RangeDecoder::normalize")]
         n += 1
-        if norm and not any(x in c.reachable_from(blk.idx, avoid=norm) for (x, _) in rets):
+        if norm and not any(x in c.reachable_from(blk.idx, avoid=norm) for (x, _, _r) in rets):
             r.ok("must-pass", {"decode_bit": "normalises on every path from the bit test to Ok"})
         else:
             r.bad("decode_bit|normalize", "a decoded bit can be returned without normalisation", pat.where(db))
